@@ -45,6 +45,8 @@ def run(ctx):
         obs = OBSERVERS if not ctx.quick else rng.sample(OBSERVERS[:9], 5) + rng.sample(OBSERVERS[9:], 2)
         for op in obs:
             cases.append({"kind": "observer", "op": op, "tree": t, "tree2": t2, "depth": depth})
+            if op in ("compare", "coiterate", "iterate", "queries", "print", "dump", "footprint") and rng.random() < 0.5:
+                cases.append({"kind": "observer", "op": op, "tree": t, "tree2": t2, "depth": depth, "ufmt": rng.randint(0, 3)})
             if depth >= 2 and t["e"] and op in FLAT_OBSERVERS and classify_tree(t) != "ghost" and rng.random() < 0.5:
                 cases.append({"kind": "observer", "op": op, "tree": t, "tree2": t2, "depth": depth, "flat": rng.choice(["tuple", "pair"])})
     part = family.run_family(ctx, "C10", cases, "harness.exec_alias", "AliasTrace.tla", "AliasTrace.cfg",
